@@ -4,6 +4,11 @@
 //! drops with the dropping thread, arena order, key order, resolution of every id ever returned) and
 //! evaluate the property itself (capacity honoured, prompt removal, no stale ids, payloads destroyed
 //! on the caller's thread only) with a small reference bookkeeping that is independent of the model.
+//! In addition (bottom of the file): a deterministic replay of the witness schedule of the `_refuted`
+//! theorems of finding F22 through the cfg(kira_verif) yield point in kira's resources.rs (compared
+//! with the model's `CSched` entry point), and a free-running two-thread stress (real concurrency
+//! between creates and callbacks through a backend that parks the `Renderer` in a shared slot;
+//! monitors only).
 use crate::backend::*;
 use crate::util::*;
 use kira::clock::{ClockHandle, ClockId, ClockSpeed};
@@ -1261,6 +1266,8 @@ struct StressOut {
 	limit_len_below: u64,
 	callbacks: u64,
 	removed_reused: u64,
+	/// the failure carries the signature of F22 (unused-ring full while something is still occupied)
+	f22: bool,
 }
 
 fn stress(kind: Kind, cap: usize, iters: usize, rng: &mut Rng) -> StressOut {
@@ -1322,7 +1329,7 @@ fn stress(kind: Kind, cap: usize, iters: usize, rng: &mut Rng) -> StressOut {
 			}
 		})
 	};
-	let mut out = StressOut { fail: None, ok: 0, limit: 0, limit_len_below: 0, callbacks: 0, removed_reused: 0 };
+	let mut out = StressOut { fail: None, ok: 0, limit: 0, limit_len_below: 0, callbacks: 0, removed_reused: 0, f22: false };
 	let name = format!("stress {} capacity {}", kind.name(), cap);
 	let mut alive: Vec<Arc<AtomicBool>> = vec![];
 	let mut all_flags: Vec<Arc<AtomicBool>> = vec![];
@@ -1386,6 +1393,8 @@ fn stress(kind: Kind, cap: usize, iters: usize, rng: &mut Rng) -> StressOut {
 					if len_before < cap {
 						out.limit_len_below += 1;
 					}
+					// let the audio thread run when the storage is full (loaded machines)
+					std::thread::yield_now();
 					// removal precedes destruction, so at most built_ok - destroyed slots can be occupied
 					let destroyed = lk(&sh.drops).len() - rejected;
 					if built_ok - destroyed.min(built_ok) < cap {
@@ -1451,7 +1460,14 @@ fn stress(kind: Kind, cap: usize, iters: usize, rng: &mut Rng) -> StressOut {
 		}
 		let n = len_of(&mut mgr);
 		if n != 0 && out.fail.is_none() {
-			out.fail = Some(format!("{name}: every resource marked and two callbacks run, but the reported count is {n}"));
+			// payloads removed from the arena and not yet destroyed sit in the unused-ring
+			let destroyed = lk(&sh.drops).len() - rejected;
+			let in_unused = built_ok as i64 - n as i64 - destroyed as i64;
+			out.f22 = kind.selfref() && in_unused == cap as i64;
+			out.fail = Some(format!(
+				"{name}: every resource marked and two callbacks run, but the reported count is {n} ({in_unused} removed payloads await destruction in the unused ring of capacity {cap}{})",
+				if out.f22 { ": the ring is full, removal is stalled" } else { "" }
+			));
 		}
 		if out.fail.is_none() {
 			match create(&mut mgr) {
@@ -1766,9 +1782,9 @@ pub fn run(args: &Args) {
 				lim += o.limit;
 				race += o.limit_len_below;
 				reuse += o.removed_reused;
-				if let Some(what) = o.fail {
+				if let Some(what) = o.fail.clone() {
 					// F22: the unused-ring overflow (and the payload the unwinding audio thread drops)
-					let f22 = what.contains("unused resource producer is full");
+					let f22 = what.contains("unused resource producer is full") || o.f22;
 					s.fail(format!("stress {} {} seed {}", kind.name(), cap, args.seed), what, if f22 { Some("unused_full_race") } else { None });
 				}
 			}
